@@ -1613,6 +1613,18 @@ class IndexHierarchy(IndexBase):
             if levels.targets is None: # fall back to 1D index
                 return levels.index.rename(name)
 
+            # a node that lost its leaves now counts one position per label: offsets of all following siblings change (levels is a copy)
+            levels_stack = [levels]
+            while levels_stack:
+                level = levels_stack.pop()
+                level._length = None
+                if level.targets is not None:
+                    offset = 0
+                    for target in level.targets:
+                        target.offset = offset
+                        offset += target._get_length()
+                    levels_stack.extend(level.targets)
+
             # if we have TypeBlocks and levels is the same length
             if not self._recache and levels.__len__() == self.__len__():
                 blocks = self._blocks.iloc[NULL_SLICE, :count]
@@ -1631,8 +1643,14 @@ class IndexHierarchy(IndexBase):
                 for target in levels.targets: #type: ignore
                     labels.extend(target.index)
                     if target.targets is not None:
-                        targets.extend(target.targets)
-                index = levels.index.__class__(labels)
+                        for t in target.targets:
+                            # offsets are relative to the parent being removed: re-base on the merged parent (levels is a copy)
+                            t.offset += target.offset
+                            targets.append(t)
+                # the merged labels keep the index type of the depth they come from, not that of the removed depth
+                index_cls = (levels.targets[0].index.__class__ #type: ignore
+                        if len(levels.targets) else levels.index.__class__) #type: ignore
+                index = index_cls(labels)
                 if not targets:
                     return index.rename(name)
                 levels = levels.__class__(
